@@ -196,6 +196,18 @@ func propC20(c *ctx) error {
 				// also across a line break inside the attribute value
 				pre := r.pick([]string{"", "x ", "prefix: ", "${name} - ", "${1 + 2}${'s'} ", "a\n  b ", "${name}\n${'x'} "})
 				line := `<p ` + ap + r.pick([]string{"text", "title", "data-x"}) + `="` + pre + `${` + call + `}">o</p>`
+				// the same on self-closing and void elements, and on a self-closing block element (their directive attributes
+				// are evaluated like any others)
+				switch r.n(8) {
+				case 0:
+					line = `<input ` + ap + `placeholder="` + pre + `${` + call + `}" />`
+				case 1:
+					line = `<img src=x ` + ap + `alt="` + pre + `${` + call + `}"/>`
+				case 2:
+					line = `<br ` + ap + `title="` + pre + `${` + call + `}">`
+				case 3:
+					line = `<span ` + ap + `text="` + pre + `${` + call + `}" />`
+				}
 				// expectation
 				enough := kw.name != "other" && kw.max() <= nargs && kw.id >= 1
 				if enough && isLit[kw.id-1] {
